@@ -460,3 +460,12 @@ C09_LIST_CORNERS = [
     "[datetime.datetime(1, 1, 1), datetime.datetime(9999, 12, 31)]", "['0001-01-01 00:00:00', '9999-12-31 23:59:59']", "['2020-01-01 00:00:00', '2020-13-01 00:00:00']",
     "[True, 1.0, np.float64(inf)]", "[0.0, np.float64(inf), 'a']", "[(), ()]", "[[1.0, inf]]", "[float('inf')] * 3 + [np.float64(2.0)]",
 ]
+
+
+# ------------------------------------------------------------------ C03 / C04 on numpy arrays built directly (str dtype, >= 1024 rows, NaN placements)
+NUMPY_DIRECT_CORNERS = [
+    "np.array(['(1+2j)'] * 1100)", "np.array(['(1+2j)', '3j'] * 600)", "np.array(['(1.5+0.25j)', '(2-8j)'] * 512)", "np.array(['1.5'] * 1100)", "np.array(['1', '2'] * 600)",
+    "np.array(['True', 'False'] * 600)", "np.array(['True', 'False'])", "np.array([1.0] * 1100)", "np.array([1.0, nan] * 600)", "np.array([1.5, nan] * 600)",
+    "np.array(['2020-01-01'] * 1100)", "np.array(['a', 'b'] * 600)", "np.array([True, False] * 600)", "np.array([1, 2] * 600)", "np.array([1.0, nan, 3.0])",
+    "np.array([nan, 2.0], dtype=np.float32)", "np.array([1.0, nan, nan, 4.0, 5.0])", "np.array([nan, 7.0, nan])", "np.array(['(1+2j)', '3j'])", "np.array(['1.5', '2.5'])",
+]
